@@ -25,8 +25,11 @@ RULE = ("each case = one config (random indentation tree, <= 40 lines, depth <= 
         "search API with its flags; the real objects' parent/children links are dumped and the regex truth tables (re.search / re.fullmatch / "
         "whitespace-run tolerant / literal) are computed by the harness as the specified meaning of the flags; the Gallina model is evaluated on "
         "that forest and oracle by vm_compute and compared with the line numbers (and None) the implementation returned.  Exhaustive part: every "
-        "indentation tree with <= 3 lines (quick) / <= 4 lines (thorough) over a 2-word alphabet x every regex chain of length <= 2 over 3 regexes "
-        "x every API.  non-trivial = the answer is a non-empty proper selection (or a branch list with >= 1 branch) -- distinct by "
+        "indentation tree with <= 3 lines (quick) / <= 4 lines (thorough) over the 2-word alphabet {a, ab} x every regex chain of length <= 2 over "
+        "{a, b, a$} x every API (find_objects plain and exact+reversed, root search, both list forms, branches with and without empty_branches, the "
+        "three two-argument forms at recurse False and True, the wo_child list form, re_search_children on lines 0 and 1), plus a sample of the "
+        "length-3 chains; the flag cross-product (exactmatch, ignore_ws, escape_chars, reverse, recurse, documented defaults) is sampled on the "
+        "random configs.  non-trivial = the answer is a non-empty proper selection (or a branch list with >= 1 branch) -- distinct by "
         "(API, flags, chain length, size of answer, number of lines).")
 EXHAUSTIVE = {"quick": True, "thorough": True}
 TRUSTED = [
